@@ -89,6 +89,7 @@ type coreRun struct {
 	ticks  int
 	curOp  map[string]string
 	rootDone bool
+	rcloseBy string
 	gtab   []uint64
 	panics []string
 }
@@ -177,6 +178,7 @@ func (r *coreRun) reporterCall(kind, name string, tags map[string]string, i int6
 	case "flush":
 		r.log(M{"e": "flush", "t": t})
 	case "rclose":
+		r.rcloseBy = t
 		r.log(M{"e": "rclose", "t": t})
 	case "alloc":
 		r.log(M{"e": "alloc", "t": t, "k": name, "id": renderID(tags["\x00name"], stripName(tags))})
@@ -431,7 +433,8 @@ func (r *coreRun) runThread(ts ThreadSpec) {
 		case "rootclose":
 			r.log(M{"e": "rootclosecall", "t": ts.Name})
 			err := r.closer.Close()
-			r.log(M{"e": "rootcloseret", "t": ts.Name, "err": err != nil})
+			ended := !r.sc.Loop || r.s.Finished("loop")
+			r.log(M{"e": "rootcloseret", "t": ts.Name, "err": err != nil, "experr": r.sc.CloseErr && r.sc.Closer && r.rcloseBy == ts.Name, "loopended": ended})
 		case "pass":
 			tally.VerifReportOnce(r.root)
 		}
@@ -458,6 +461,7 @@ func newCoreRun(sc *Scenario, withSched bool) *coreRun {
 		}
 		r.s.Terminal["rl_exit"] = true
 		r.s.Adopt("rl_", "loop")
+		r.s.Daemon["loop"] = true
 		tally.VerifSetHook(r.s.Hook, nil)
 		tally.VerifSetTickerHook(func(t *time.Ticker) {
 			r.ticker = t
